@@ -312,16 +312,25 @@ func bigIntrinsic(name string) intrinsic {
 			if x.t == nil {
 				return x.c.BitLen()
 			}
-			// decide the bit length by forking (bounded)
+			// decide the bit length by binary search on |x| < 2^k (each step one branch)
 			st := fr.st()
 			ax := st.IAbs(x.t)
-			for k := 0; k <= 320; k++ {
-				lim := st.IntC(new(big.Int).Lsh(bigOne, uint(k)))
-				if fr.cond(lower(types.Typ[types.Bool], st.ILt(ax, lim))) {
-					return k
-				}
+			lt := func(k int) bool {
+				return fr.cond(lower(types.Typ[types.Bool], st.ILt(ax, st.IntC(new(big.Int).Lsh(bigOne, uint(k))))))
 			}
-			panic(pathAbort{"cut", "big.Int.BitLen above 320"})
+			if lt(520) {
+				lo, hi := 0, 520 // invariant: |x| >= 2^(lo-1) (or lo==0), |x| < 2^hi
+				for lo < hi {
+					mid := (lo + hi) / 2
+					if lt(mid) {
+						hi = mid
+					} else {
+						lo = mid + 1
+					}
+				}
+				return lo
+			}
+			panic(pathAbort{"cut", "big.Int.BitLen above 520"})
 		}
 	case "Bytes":
 		return func(fr *frame, a []value) value {
@@ -357,6 +366,15 @@ func bigIntrinsic(name string) intrinsic {
 			}
 			return out
 		}
+	case "Bits":
+		return concOnly("Bits", func(fr *frame, a []value) value {
+			ws := getBig(fr, a[0]).c.Bits()
+			out := make([]value, len(ws))
+			for i, w := range ws {
+				out[i] = uint(w)
+			}
+			return out
+		})
 	case "String":
 		return func(fr *frame, a []value) value {
 			p := a[0].(*value)
